@@ -636,6 +636,11 @@ def main(argv=None):
     ap.add_argument("--exe", default=os.environ.get("FV_MODEL_EXE"))
     ap.add_argument("-v", action="store_true")
     a = ap.parse_args(argv)
+    if argv is None and os.environ.get("PYTHONHASHSEED") != "0":
+        # the sample sets are built from Python sets of strings: pin the hash seed so that a run
+        # (and a failure) is reproducible
+        env = dict(os.environ, PYTHONHASHSEED="0")
+        os.execve(sys.executable, [sys.executable, "-m", "fv.cosim_combi"] + sys.argv[1:], env)
     bad, _, _, _ = run(a.seed, a.n, exe=a.exe, verbose=a.v)
     return 1 if bad else 0
 
